@@ -551,6 +551,125 @@ pub fn const_files(widths: &[u32]) -> Vec<String> {
     out
 }
 
+/// Several constants in one file: every ordered pair (and a few triples) of constant lines of one width whose digit
+/// strings are legal in their bases - the same digits in different bases (`constd 10` / `consth 10` / `const 10`),
+/// the same number spelt differently, and the same line twice. Each constant is an output of its own and all of
+/// them are combined in one expression: a reader that remembers constants by anything less than (base, digits,
+/// width) shows here.
+pub fn const_pair_files(widths: &[u32]) -> Vec<String> {
+    let digit_strings = ["0", "1", "10", "11", "100", "101", "0010", "110"];
+    let mut out = vec![];
+    for &w in widths {
+        // (tag, digits) legal at this width
+        let mut lines: Vec<(&str, &str)> = vec![];
+        for d in digit_strings {
+            if d.len() as u32 <= w {
+                lines.push(("const", d));
+            }
+            if let Ok(v) = d.parse::<u64>() && (w >= 64 || v < (1u64 << w)) {
+                lines.push(("constd", d));
+            }
+            if let Ok(v) = u64::from_str_radix(d, 16) && (w >= 64 || v < (1u64 << w)) {
+                lines.push(("consth", d));
+            }
+        }
+        for (i, a) in lines.iter().enumerate() {
+            for (j, b) in lines.iter().enumerate() {
+                // same digits in another base, the same line twice, or neighbouring spellings
+                if !(a.1 == b.1 || (i as i64 - j as i64).abs() <= 1) {
+                    continue;
+                }
+                for third in [None, Some(lines[(i + j) % lines.len()])] {
+                    let mut tb = Tb::new();
+                    let s = tb.sort(Sort::Bv(w));
+                    let s1 = tb.sort(Sort::Bv(1));
+                    let ca = tb.line(&format!("{} {s} {}", a.0, a.1));
+                    let cb = tb.line(&format!("{} {s} {}", b.0, b.1));
+                    let cc = third.map(|t| tb.line(&format!("{} {s} {}", t.0, t.1)));
+                    let x = tb.line(&format!("input {s}"));
+                    tb.line(&format!("output {ca}"));
+                    tb.line(&format!("output {cb}"));
+                    let sum = tb.line(&format!("sub {s} {ca} {cb}"));
+                    let sum = match cc {
+                        Some(c) => {
+                            tb.line(&format!("output {c}"));
+                            tb.line(&format!("xor {s} {sum} {c}"))
+                        }
+                        None => sum,
+                    };
+                    let r = tb.line(&format!("add {s} {x} {sum}"));
+                    tb.line(&format!("output {r}"));
+                    let e = tb.line(&format!("ugt {s1} {ca} {cb}"));
+                    tb.line(&format!("bad {e}"));
+                    out.push(tb.text());
+                }
+            }
+        }
+    }
+    out.sort();
+    out.dedup();
+    out
+}
+
+/// Two-operator chains through a width change (the chains of `chain_files` keep every intermediate result inside
+/// a two-sort universe, so an extension or slice is never an operand there): x of width 1..3 through
+/// uext / sext / slice / concat, the result (plain or negated) through uext / sext / slice / a unary operator.
+pub fn width_chain_files() -> Vec<String> {
+    let mut out = vec![];
+    for w in [1u32, 2, 3] {
+        // inner: (text after the sort id with {x}, result width)
+        let mut inners: Vec<(String, u32)> = vec![];
+        for a in [0u32, 1, 2] {
+            inners.push((format!("uext {{s}} {{x}} {a}"), w + a));
+            inners.push((format!("sext {{s}} {{x}} {a}"), w + a));
+        }
+        for hi in 0..w {
+            for lo in 0..=hi {
+                inners.push((format!("slice {{s}} {{x}} {hi} {lo}"), hi - lo + 1));
+            }
+        }
+        inners.push(("concat {s} {x} {y}".to_string(), 2 * w));
+        for (inner, iw) in inners.iter() {
+            let mut outers: Vec<(String, u32)> = vec![];
+            for b in [0u32, 1, 2] {
+                outers.push((format!("uext {{s}} {{i}} {b}"), iw + b));
+                outers.push((format!("sext {{s}} {{i}} {b}"), iw + b));
+            }
+            for hi in 0..*iw {
+                for lo in 0..=hi {
+                    outers.push((format!("slice {{s}} {{i}} {hi} {lo}"), hi - lo + 1));
+                }
+            }
+            for u in ["not", "neg", "inc", "dec"] {
+                if !btorref::PATRONUS_UNSUPPORTED.contains(&u) {
+                    outers.push((format!("{u} {{s}} {{i}}"), *iw));
+                }
+            }
+            for u in ["redand", "redor", "redxor"] {
+                outers.push((format!("{u} {{s}} {{i}}"), 1));
+            }
+            for (outer, ow) in outers.iter() {
+                for neg in [false, true] {
+                    let mut tb = Tb::new();
+                    let sx = tb.sort(Sort::Bv(w));
+                    let x = tb.line(&format!("input {sx}"));
+                    let y = tb.line(&format!("state {sx}"));
+                    let si = tb.sort(Sort::Bv(*iw));
+                    let i = tb.line(&inner.replace("{s}", &si.to_string()).replace("{x}", &x.to_string()).replace("{y}", &y.to_string()));
+                    let so = tb.sort(Sort::Bv(*ow));
+                    let r = tb.line(&outer.replace("{s}", &so.to_string()).replace("{i}", &format!("{}{i}", if neg { "-" } else { "" })));
+                    tb.line(&format!("output {r}"));
+                    tb.line(&format!("output -{r}"));
+                    out.push(tb.text());
+                }
+            }
+        }
+    }
+    out.sort();
+    out.dedup();
+    out
+}
+
 /// init/next attachment files
 pub fn attach_files() -> Vec<String> {
     let mut out = vec![];
@@ -953,6 +1072,7 @@ pub fn run(opts: &Opts, rep: &Report) {
         v
     };
     let attach = attach_files();
+    let const_pairs = const_pair_files(if thorough { &[1, 2, 3, 4, 8, 16, 64, 65] } else { &[2, 3, 8] });
     let consts = const_files(if thorough { &[1, 2, 3, 4, 8, 31, 32, 33, 63, 64, 65, 127, 128, 129, 130, 192] } else { &[1, 2, 3, 8, 64, 65, 128, 129] });
     let mut ill: Vec<String> = ill_bases.par_iter().chain(attach.par_iter()).flat_map(|b| illsorted_variants(b)).collect();
     ill.par_sort();
@@ -986,6 +1106,7 @@ pub fn run(opts: &Opts, rep: &Report) {
         rep.cap_hit("line orders per base file capped");
     }
     let mut chains = chain_files(2, thorough);
+    chains.extend(width_chain_files());
     if thorough {
         chains.extend(chain_files(3, true));
         chains.extend(chain_files(8, false));
@@ -1037,7 +1158,7 @@ pub fn run(opts: &Opts, rep: &Report) {
     }
     rep.note(
         "stages",
-        json!({"single": single.len(), "const": consts.len(), "attach": attach.len(), "chain": chains.len(), "order": orders.len(), "illsorted": ill.len(), "operand_mutants": opnd.len(), "order_bases": bases.len()}),
+        json!({"single": single.len(), "const": consts.len(), "const_pairs": const_pairs.len(), "attach": attach.len(), "chain": chains.len(), "order": orders.len(), "illsorted": ill.len(), "operand_mutants": opnd.len(), "order_bases": bases.len()}),
     );
     for t in [&single[0], &chains[chains.len() / 2], &ill[ill.len() / 3]] {
         rep.sample(json!({"text": t}));
@@ -1045,6 +1166,7 @@ pub fn run(opts: &Opts, rep: &Report) {
     let stages = vec![
         Stage { name: "single", texts: single },
         Stage { name: "const", texts: consts },
+        Stage { name: "const-pairs", texts: const_pairs },
         Stage { name: "attach", texts: attach },
         Stage { name: "names", texts: name_files() },
         Stage { name: "order", texts: orders },
